@@ -6,7 +6,7 @@ import warnings
 import numpy as np
 from hypothesis import strategies as st
 
-from .. import common, gen as G, loopsem as L, expr as X, relations as R
+from .. import common, gen as G, loopsem as L, expr as X, relations as R, loopvmap as LV
 from ..common import Violation
 from . import c01
 from ._base import standard_run, standard_worker
@@ -38,7 +38,7 @@ def c07_case(draw, tier="quick"):
     sh = draw(st.sampled_from(SHORTHANDS))
     rnd = [draw(st.integers(0, 10**6)) for _ in range(4)]
     quick = tier == "quick"
-    B = [None, "numpy", "numpy.numpylike", "numpy.einsum"]
+    B = [None, "numpy", "numpy.numpylike", "numpy.einsum", LV.NAME]
     if sh == "implicit":
         ops = ["id"] + G.ELEMENTWISE_BIN + G.ELEMENTWISE_NARY + ["where"] + G.REDUCE + G.PRESERVE + G.ARGFIND + G.UPDATE
         fam = draw(st.sampled_from(["id", "elementwise", "elementwise", "reduce", "preserve", "argfind", "update"]))
@@ -124,6 +124,7 @@ def _run(spec):
     if spec["backend"] is not None:
         kw["backend"] = spec["backend"]
     fn = getattr(einx, spec["op"])
+    LV.ensure(spec["backend"])
     with warnings.catch_warnings():
         warnings.simplefilter("ignore")
         try:
@@ -222,6 +223,8 @@ def derive(rc, arrays):
                 if not b and k not in out_names:
                     return None
         ins2 = [_strip_br(e) for e in base["ins"]]
+        if any(it[0] == "ell" and len(it[1]) != 1 for e in ins2 for it in R._nodes(e)):
+            return None  # "[a b]..." has no bracket-free spelling: an ellipsis applies to one item
         return {"long": _spec(base, arrays=arrays), "short": _spec(base, desc=X.p_desc(ins2, base["outs"]), arrays=arrays), "expect": "equal"}
     if sh == "number":
         if not any(X.has_node(e, "num") for e in base["ins"] + base["outs"]):
